@@ -327,6 +327,15 @@ func (fs *fuzzStore) build(q *fReq) *Req {
 		body = []byte(`<Delete><Object><Key>k1</Key></Object><Object><Key>nokey</Key><VersionId>nov</VersionId></Object></Delete>`)
 	case "complete-xml":
 		body = []byte(`<CompleteMultipartUpload><Part><PartNumber>1</PartNumber><ETag>"x"</ETag></Part></CompleteMultipartUpload>`)
+	case "complete-odd-etags":
+		// ETag spellings for parts that exist (1, 3) and one that does not (2): a lone quote, nothing, quotes only,
+		// an unbalanced quote, blanks
+		body = []byte(`<CompleteMultipartUpload><Part><PartNumber>1</PartNumber><ETag>&quot;</ETag></Part>` +
+			`<Part><PartNumber>2</PartNumber><ETag>&quot;</ETag></Part><Part><PartNumber>3</PartNumber><ETag></ETag></Part></CompleteMultipartUpload>`)
+	case "complete-quotes-only":
+		body = []byte(`<CompleteMultipartUpload><Part><PartNumber>1</PartNumber><ETag>""</ETag></Part><Part><PartNumber>3</PartNumber><ETag>"abc</ETag></Part></CompleteMultipartUpload>`)
+	case "complete-lone-quote":
+		body = []byte(`<CompleteMultipartUpload><Part><PartNumber>3</PartNumber><ETag>"</ETag></Part></CompleteMultipartUpload>`)
 	case "versioning-xml":
 		body = []byte(`<VersioningConfiguration><Status>Suspended</Status></VersioningConfiguration>`)
 	case "versioning-bad-status":
